@@ -132,12 +132,6 @@ def respMsgsOf (evs : List OEv) : List Msg :=
 def reqIdxOf (evs : List OEv) : List Nat := evs.filterMap (fun | .reqData _ _ i => some i | _ => none)
 def respIdxOf (evs : List OEv) : List Nat := evs.filterMap (fun | .respData _ _ i => some i | _ => none)
 
-def frameSid : Frame → Option Nat
-  | .headers id _ _ => some id
-  | .data id _ _ => some id
-  | .rst id _ => some id
-  | _ => none
-
 /-- how a stream's life ended -/
 inductive Ending
   | open                         -- not (yet) ended
